@@ -367,3 +367,21 @@ Lemma old_dynamic_foreach_yielded_nothing :
   char_len (utf8 cs) = 5%nat /\ length (items (old_vec_for_loop_on_string (utf8 cs))) = 0%nat
   /\ length (items (vm_for_each SelDynamic (utf8 cs))) = 5%nat.
 Proof. vm_compute. repeat split; reflexivity. Qed.
+
+(* ------------------------------------------------------------------ opcode selection *)
+From Aelys Require Import Extracted.Utf8Select Model.Selection.
+
+Lemma selection_lemma t cs : In t string_static_types -> all_valid cs ->
+  compiled_for_each t (utf8 cs)
+  = Some {| items := map encode cs; final_off := byte_len (utf8 cs); finished := true |}
+  /\ compiled_index_ok t = true /\ dynamic_len_handles_string = true.
+Proof.
+  intros H V. cbn [string_static_types In] in H.
+  assert (A : forall k, Some (vm_for_each k (utf8 cs))
+                        = Some {| items := map encode cs; final_off := byte_len (utf8 cs); finished := true |}).
+  { intro k. f_equal. apply iter_yields_any_lemma. exact V. }
+  destruct H as [<-|[<-|[<-|[]]]].
+  - split; [exact (A SelString)|split; reflexivity].
+  - split; [exact (A SelDynamic)|split; reflexivity].
+  - split; [exact (A SelDynamic)|split; reflexivity].
+Qed.
